@@ -489,7 +489,7 @@ func H_C12_map() {
 	collectionLocalMin(L, L/4, false, "map", func(buf []uint64, persist bool) (bool, int, bool, *bufBitStream) {
 		s := newBufBitStream(append([]uint64(nil), buf...), persist)
 		t := newT(nil, s, false, nil)
-		var v map[uint8]bool
+		var v map[bool]bool
 		p := catch(func() { v = g.value(t) })
 		return p == nil, len(v), false, s
 	})
